@@ -326,6 +326,8 @@ def find_in(d, path):
 
 def sample_payload(typ, key, kind, rnd=None, depth=0):
     if kind == "keyvalue":
+        if rnd and rnd.random() < 0.25:
+            return [("Key_One", "value one"), ("wms_title", 'The \\"best\\" title'), ("k3", "3")]    # an escaped quote inside a value
         return [("Key_One", "value one"), ("wms_title", "Title"), ("k3", "3")]
     if kind == "repeated":
         return "BANDS=1,2,3" if key != "include" else "other.map"
